@@ -11,10 +11,11 @@ from fractions import Fraction
 from ..core import Check, classify_exc
 from ..g import g_Z, g_bool, g_list, g_nat, g_str
 
-IMPORTS = "PyPrims Filters"
+IMPORTS = "PyPrims Filters Filters2"
 UNDEF = ("undef",)  # marker: the variable is not passed at all
 
 _ENV = None
+_TPL: dict = {}
 
 
 def env():
@@ -37,12 +38,21 @@ def run_filter(name, value, args, kwargs=""):
     for i, a in enumerate(args):
         if a is not UNDEF:
             data[f"a{i}"] = a
-        parts.append(f"a{i}")
+        parts.append(f"allow_false: a{i}" if (name == "default" and i == 1) else f"a{i}")
     if kwargs:
         parts.append(kwargs)
-    src = "{{ v | " + name + (": " + ", ".join(parts) if parts else "") + " | json }}"
+    call = "v | " + name + (": " + ", ".join(parts) if parts else "")
+    if name == "map":
+        # a missing property gives the engine's private null object, which the json filter rejects: print item by item
+        src = ("{% assign m = " + call + " %}{% if m == nil %}null{% else %}[{% for x in m %}{% if x == nil %}null{% else %}"
+               "{{ x | json }}{% endif %}{% unless forloop.last %},{% endunless %}{% endfor %}]{% endif %}")
+    else:
+        src = "{{ " + call + " | json }}"
     try:
-        out = env().from_string(src).render(**data)
+        tpl = _TPL.get(src)
+        if tpl is None:
+            tpl = _TPL[src] = env().from_string(src)
+        out = tpl.render(**data)
     except Exception as e:  # noqa: BLE001
         return src, data, ("err", classify_exc(e))
     try:
@@ -105,22 +115,35 @@ def g_obs(o):
     raise Inexpressible(o)
 
 
-COQ_NAME = {"default_af": "Fdefault_allow_false"}
+X_NAMES = {"strip_newlines", "round", "divided_by", "modulo", "map", "default"}
 
 
 def g_case(fname, value, args):
-    return (f"{{| fc_name := {COQ_NAME.get(fname, 'F' + fname)}; fc_val := {g_val(value)}; "
-            f"fc_args := {g_list(g_val(a) for a in args)} |}}")
+    cn = ("X" + fname) if fname in X_NAMES else f"(Base F{fname})"
+    return (f"{{| fc2_name := {cn}; fc2_val := {g_val(value)}; "
+            f"fc2_args := {g_list(g_val(a) for a in args)} |}}")
 
 
 # ------------------------------------------------------------------------- the pools
 STRS = ["", "a", "B", " ", "ab", "a b", " a", "a ", "aB ", "abc", "abcdefgh", "a b  c d", "  x ", "a,b,c", "a,,b", ",a,",
         "Hello World foo", "one two\tthree\nfour", "aXbXc", "XaX", "aa"]
+# case and whitespace filters: every ASCII whitespace character of str.isspace (TAB LF VT FF CR FS GS RS US space), CR/LF
+# combinations, letters next to the ends of the two letter ranges (@ [ ` {), digits
+WS_STRS = ["\x1c a\x1f", "\x1d\x1eb", "\x0b\x0cx\x0c\x0b", "\ta b\n", "\r\n", "a\nb\r\nc\rd\n", "\r\r\n", "\n\r", "a\r", "\rb",
+           "@AZ[`az{", "hELLO wORLD", "zZ9 aA", "1st THING", "\x1b \x7f"]
 INTS = [-3, -1, 0, 1, 2, 3, 7, 10**20]
 NUMSTR = ["5", "-2", "1.5", "abc", "2.50"]
 DECS = [1.5, 2.25, -0.5, 0.1, 3.0, 2.5, 0.75]
+# decimals whose float neighbours betray binary arithmetic (0.3/0.1, 0.7*3), negative dividends and divisors, a third place
+DECS2 = [0.3, -7.0, 7.5, -2.5, 0.7, 183.357, 1.25, 2.675, 0.125, -1.35]
 LISTS = [[], [3, 1, 2], [1, 1, 2, 1], [2, None, 1], ["b", "A", "c", "a"], ["b", "a", "b"], [[1, 2], [3]], ["x"], [10, 9, 8, 7]]
+# sort_natural: case-insensitive ties (stability), mixed types ordered by their lower-cased text, nil, booleans
+NAT_LISTS = [["b", "B", "a", "A"], ["B", "b", "A", "a"], ["b", 1, "A", 10, 9], [True, None, "x", False], ["Zeta", "alpha", "Beta", None],
+             ["a10", "A9", "a1"], [[2, "b"], ["B", 1]], ["none", None, "NONE"], ["", " ", "a"]]
 DICTS = [[{"k": 1, "t": "x"}, {"k": 2}, {"k": None, "t": "y"}, {"k": 1, "t": False}], [{"k": "x"}, {"k": "y"}, {"t": 1}], []]
+# map over things that are not all hashes: nil items, strings (substring rule), scalars, nested arrays, a bare hash
+MAP_INPUTS = [[{"k": 1}, None, {"k": 3}], [{"k": 1}, 5, None], [None, 5], [{"k": 1}, "xk", "z"], ["k"], [{"k": 1}, True], [{"k": 1}, 1.5],
+              [[{"k": 1}, {"z": 0}], [{"k": 2}]], {"k": 7}, {"z": 7}, "k", 5, None, UNDEF, [{"k": [1, 2]}, {"k": {"a": 1}}], [{"1": "one"}, {"None": 0}]]
 SCALARS = [None, UNDEF, True, False, 0, 5, "s", ""]
 
 
@@ -224,13 +247,25 @@ def o_reject(value, args, out):
 
 
 def o_first(value, args, out):
-    want = value[0] if isinstance(value, list) and value else None
-    return out == want or f"first gave {out!r}"
+    # array-like or a mapping, but not a string; empty or not a sequence gives nil
+    if isinstance(value, dict) and value:
+        k = next(iter(value))
+        want = [k, value[k]]
+    else:
+        want = value[0] if isinstance(value, list) and value else None
+    return out == want or f"first gave {out!r}, documented {want!r}"
 
 
 def o_last(value, args, out):
+    if isinstance(value, dict) and value:
+        return True  # a mapping is not mentioned for `last`
     want = value[-1] if isinstance(value, list) and value else None
-    return out == want or f"last gave {out!r}"
+    return out == want or f"last gave {out!r}, documented {want!r}"
+
+
+def o_strip_newlines(value, args, out):
+    want = as_text(value).replace("\r\n", "").replace("\n", "")
+    return out == want or f"strip_newlines gave {out!r}, removing LF and CRLF gives {want!r}"
 
 
 def o_slice(value, args, out):
@@ -249,24 +284,34 @@ def o_slice(value, args, out):
     return out == want or f"slice({args}) gave {out!r}, documented {want!r}"
 
 
-def exact(x):
+def readings(x):
+    """The exact value(s) the documentation allows for an operand: numbers and numeric strings as they read, anything that
+    cannot be converted as 0.  A boolean is a number to Python (1/0) and not a number to the reference (0): both accepted."""
     if isinstance(x, bool):
-        return Fraction(int(x))
+        return [Fraction(int(x)), Fraction(0)]
     if isinstance(x, int):
-        return Fraction(x)
+        return [Fraction(x)]
     if isinstance(x, float):
-        return Fraction(decimal.Decimal(repr(x)))
+        return [Fraction(decimal.Decimal(repr(x)))]
     if isinstance(x, str):
         try:
-            return Fraction(decimal.Decimal(x))
+            d = decimal.Decimal(x.strip())
+            if d.is_finite():
+                return [Fraction(d)]
         except Exception:  # noqa: BLE001
-            return Fraction(0)
-    return Fraction(0)
+            pass
+        return [Fraction(0)]
+    return [Fraction(0)]
+
+
+def exact(x):
+    return readings(x)[0]
 
 
 def out_exact(out):
     if isinstance(out, tuple) and out[0] == "float":
-        return Fraction(decimal.Decimal(out[1]))
+        d = decimal.Decimal(out[1])
+        return Fraction(d) if d.is_finite() else None
     if isinstance(out, int) and not isinstance(out, bool):
         return Fraction(out)
     return None
@@ -284,55 +329,93 @@ def short_decimal(fr):
     return len(dec.normalize().as_tuple().digits) <= 15
 
 
+def intlike(x):
+    return isinstance(x, int) or (isinstance(x, str) and x.strip().lstrip("-").isdigit())
+
+
 def both_int(a, b):
-    def isint(x):
-        return (isinstance(x, int)) or (isinstance(x, str) and x.lstrip("-").isdigit())
-    return isint(a) and isint(b)
+    return intlike(a) and intlike(b)
 
 
 def o_arith(op):
     def f(value, args, out):
-        a, b = exact(value), exact(args[0])
-        if op == "divided_by":
-            if b == 0:
-                return True
-            if not both_int(value, args[0]):
-                return True  # binary float division: not claimed
-            want = Fraction(math.floor(a / b))
-        elif op == "modulo":
-            if b == 0 or not both_int(value, args[0]):
-                return True
-            want = a - b * math.floor(a / b)
-        else:
-            want = {"plus": a + b, "minus": a - b, "times": a * b, "at_least": max(a, b), "at_most": min(a, b)}[op]
-        if not short_decimal(want):
-            return True  # more than 15 significant digits: float precision is outside the contract as checked here
         got = out_exact(out)
-        return got == want or f"{op}: got {out!r}, exact arithmetic gives {want}"
+        wants = []
+        for a in readings(value):
+            for b in readings(args[0]):
+                if op in ("divided_by", "modulo"):
+                    if b == 0:
+                        return True  # a zero divisor is an error, judged by o_arith_err
+                    fl = Fraction(math.floor(a / b))
+                    if op == "divided_by":
+                        # floor division of two integers; otherwise the quotient itself
+                        want = fl if both_int(value, args[0]) else a / b
+                    else:
+                        want = a - b * fl  # remainder with the sign of the divisor, as for integers
+                else:
+                    want = {"plus": a + b, "minus": a - b, "times": a * b, "at_least": max(a, b), "at_most": min(a, b)}[op]
+                wants.append(want)
+        if not all(short_decimal(w) for w in wants):
+            return True  # non-terminating, or more than 15 significant digits: float precision is outside the contract
+        return got in wants or f"{op}: got {out!r}, exact arithmetic gives {wants[0]}"
     return f
 
 
 def o_unary(op):
     def f(value, args, out):
-        a = exact(value)
-        if op == "round" and (a * 2).denominator == 1 and a.denominator != 1:
-            return True  # exact halves: tie-breaking rule not part of the contract
-        want = {"abs": abs(a), "ceil": Fraction(math.ceil(a)), "floor": Fraction(math.floor(a)),
-                "round": Fraction(math.floor(a + Fraction(1, 2)))}[op]
         got = out_exact(out)
-        return got == want or f"{op}: got {out!r}, exact arithmetic gives {want}"
+        wants = []
+        for a in readings(value):
+            if op == "round" and (a * 2).denominator == 1 and a.denominator != 1:
+                return True  # exact halves: tie-breaking rule not part of the contract
+            wants.append({"abs": abs(a), "ceil": Fraction(math.ceil(a)), "floor": Fraction(math.floor(a)),
+                          "round": Fraction(math.floor(a + Fraction(1, 2)))}[op])
+        return got in wants or f"{op}: got {out!r}, exact arithmetic gives {wants[0]}"
     return f
 
 
-def o_default(allow_false):
-    def f(value, args, out):
-        v = py_or_none(value)
-        use_default = v is None or (v is False and not allow_false) or (isinstance(v, (str, list, dict)) and len(v) == 0)
-        want = args[0] if use_default else v
-        if isinstance(want, float):
+def o_round_n(value, args, out):
+    """round: n -- the input rounded to n decimal places: a multiple of 10^-n at distance at most half of 10^-n."""
+    n = args[0]
+    if isinstance(n, bool) or not isinstance(n, int) or n < 0 or n > 30:
+        return True  # only a plain non-negative number of places is documented
+    if n == 0:
+        return o_unary("round")(value, [], out)
+    got = out_exact(out)
+    if got is None:
+        return f"round: {n} gave {out!r}, not a number"
+    for a in readings(value):
+        unit = Fraction(1, 10 ** n)
+        if abs(got - a) <= unit / 2 and (got / unit).denominator == 1:
             return True
-        return out == want or f"default gave {out!r}, documented {want!r}"
-    return f
+    return f"round: {n} gave {out!r}, which is not {exact(value)} rounded to {n} places"
+
+
+def finite_operand(x):
+    if isinstance(x, float):
+        return math.isfinite(x)
+    if isinstance(x, str):
+        return x.strip().lower().lstrip("+-") not in ("nan", "inf", "infinity")
+    return True
+
+
+def o_arith_err(op, value, args):
+    """Is a raised error allowed?  Only for a zero divisor: anything that cannot be converted is used as 0."""
+    if op in ("divided_by", "modulo"):
+        return any(b == 0 for b in readings(args[0]))
+    return False
+
+
+def o_default(value, args, out):
+    v = py_or_none(value)
+    allow_false = len(args) > 1 and args[1] is True
+    if len(args) > 1 and args[1] not in (True, False, UNDEF, None):
+        return True  # allow_false is documented for true and false only
+    use_default = v is None or (v is False and not allow_false) or (isinstance(v, (str, list, dict)) and len(v) == 0)
+    want = args[0] if use_default else v
+    if isinstance(want, float):
+        return True
+    return (out == want and type(out) is type(want)) or f"default gave {out!r}, documented {want!r}"
 
 
 # ---------------------------------------------------------------------------- cases
@@ -351,18 +434,32 @@ def gen_cases(ck: Check):
         for n in [-1, 0, 1, 2, 3, 4, 2**31 - 1, "2"]:
             for e in (None, "!"):
                 yield "truncatewords", s, ([n] if e is None else [n, e]), "", (o_truncatewords if isinstance(n, int) else None)
-    for v in STRS + INTS + LISTS + DICTS + SCALARS + DECS[:2] + [{"a": 1, "b": 2}, {}]:
+    for v in STRS + INTS + LISTS + DICTS + SCALARS + DECS[:2] + [{"a": 1, "b": 2}, {}, {"z": None}]:
         yield "size", v, [], "", o_size
-        yield "first", v, [], "", (o_first if isinstance(v, list) else None)
-        yield "last", v, [], "", (o_last if isinstance(v, list) else None)
-        for af, nm in ((False, "default"), (True, "default_af")):
-            yield nm, v, ["D"], ("allow_false: true" if af else ""), o_default(af)
-    for s in STRS + [5, None, True]:
+        yield "first", v, [], "", o_first
+        yield "last", v, [], "", o_last
+        yield "default", v, ["D"], "", o_default
+        for af in (True, False, UNDEF, None, 1, "true"):
+            yield "default", v, ["D", af], "", o_default
+    for d in (None, 0, [], False):
+        for v in (None, UNDEF, False, "", [], {}, 0, "x"):
+            yield "default", v, [d], "", o_default
+    for s in STRS + WS_STRS + [5, -12, None, True, False, UNDEF]:
         for nm, m in (("upcase", "upper"), ("downcase", "lower"), ("capitalize", "capitalize"), ("strip", "strip"),
                       ("lstrip", "lstrip"), ("rstrip", "rstrip")):
-            yield nm, s, [], "", (o_strop(m) if isinstance(s, str) or s is None else None)
+            yield nm, s, [], "", (o_strop(m) if isinstance(s, str) or s is None or s is UNDEF else None)
+        yield "strip_newlines", s, [], "", (o_strip_newlines if isinstance(s, str) or s is None or s is UNDEF else None)
+    # exhaustive: every string over a small alphabet (a letter of each case, space, LF, CR; thorough: also FS) up to length 3 (4)
+    alpha = "aB \n\r" if q else "aB \n\r\x1c"
+    for n in range(1, 4 if q else 5):
+        for tup in itertools.product(alpha, repeat=n):
+            s = "".join(tup)
+            for nm, m in (("upcase", "upper"), ("downcase", "lower"), ("capitalize", "capitalize"), ("strip", "strip"),
+                          ("lstrip", "lstrip"), ("rstrip", "rstrip")):
+                yield nm, s, [], "", o_strop(m)
+            yield "strip_newlines", s, [], "", o_strip_newlines
     seps = [",", " ", "", "ab", "a", "X", ",,", None, UNDEF]
-    for s in STRS:
+    for s in STRS + WS_STRS[:4]:
         for sep in seps + [s]:
             yield "split", s, [sep], "", None
     for l in LISTS + ["abc", 5]:
@@ -374,8 +471,7 @@ def gen_cases(ck: Check):
             yield "slice", seq, [st], "", (o_slice if isinstance(st, int) else None)
             for ln in [-1, 0, 1, 2, 3, 9, "2", UNDEF]:
                 yield "slice", seq, [st, ln], "", (o_slice if isinstance(st, int) and isinstance(ln, int) else None)
-    for l in LISTS:
-        plain = all(not isinstance(x, list) or True for x in l)
+    for l in LISTS + NAT_LISTS:
         homog_int = all(isinstance(x, int) and not isinstance(x, bool) for x in flat(l))
         homog_str = all(isinstance(x, str) for x in flat(l))
         yield "reverse", l, [], "", (o_reverse if not any(isinstance(x, list) for x in l) else None)
@@ -383,9 +479,21 @@ def gen_cases(ck: Check):
         yield "sort_natural", l, [], "", (o_sort_natural if all(x is not None for x in flat(l)) else None)
         yield "uniq", l, [], "", o_uniq
         yield "compact", l, [], "", o_compact
+    # exhaustive: every list over a small item pool up to length 3 (4)
+    items = ["a", "A", "b", "B", None, 1, 10]
+    for n in range(2, 4 if q else 5):
+        for tup in itertools.product(items, repeat=n):
+            l = list(tup)
+            yield "sort_natural", l, [], "", (o_sort_natural if all(x is not None for x in l) else None)
+    mitems = [{"k": 1}, {"z": 2}, {"k": None}, None, 5, "xk", "z"]
+    for n in range(1, 3 if q else 4):
+        for tup in itertools.product(mitems, repeat=n):
+            l = list(tup)
+            yield "map", l, ["k"], "", (o_map if all(isinstance(x, dict) for x in l) else None)
+    for l in LISTS:
         for l2 in LISTS[:5] + [5, "s", None, UNDEF]:
             yield "concat", l, [l2], "", (o_concat if isinstance(l2, list) else None)
-    for v in ["abc", 5, None]:
+    for v in ["abc", 5, None, "B"]:
         for nm in ("reverse", "sort", "sort_natural", "uniq", "compact"):
             yield nm, v, [], "", None
         yield "concat", v, [[1]], "", None
@@ -397,18 +505,32 @@ def gen_cases(ck: Check):
             for val in (1, "x", None, 2, UNDEF):
                 yield "where", d, [key, val], "", o_where
                 yield "reject", d, [key, val], "", o_reject
-    operands = INTS + NUMSTR + DECS + [None, UNDEF]
+    for v in MAP_INPUTS:
+        for key in ("k", "z", "", UNDEF, None, 1):
+            dicts = isinstance(v, list) and all(isinstance(x, dict) for x in v) and isinstance(key, str)
+            yield "map", v, [key], "", (o_map if dicts else None)
+    decs2 = DECS2[:6] if q else DECS2 + [0.05, 12.5, -0.25, 99.99, 1e-07]
+    more = [] if q else [-10, 100, 12345678901, "0.30", "-7.0", "007", "-0.5"]
+    operands = INTS + NUMSTR + DECS + decs2 + more + [None, UNDEF, True, False]
     for a, b in itertools.product(operands, repeat=2):
         for op in ("plus", "minus", "times", "divided_by", "modulo", "at_least", "at_most"):
             yield op, a, [b], "", o_arith(op)
-    for a in operands:
-        for op in ("abs", "ceil", "floor", "round"):
+    digits = [UNDEF, None, 0, 1, 2, 3, -1, 10**20, "1", "x", 1.9, -0.5, True, [1]]
+    for a in operands + DECS2 + ["-1.35", "0.125"]:
+        for op in ("abs", "ceil", "floor"):
             yield op, a, [], "", o_unary(op)
+        yield "round", a, [], "", o_unary("round")
+        for n in digits:
+            yield "round", a, [n], "", o_round_n
     # split then join with the same separator restores a non-empty string
     for s in STRS:
         if s:
             for sep in [",", " ", "ab", "a", "X", ",,", s]:
                 yield ("splitjoin", s, [sep], "", None)
+
+
+ARITH = ("plus", "minus", "times", "divided_by", "modulo", "at_least", "at_most")
+MATH = ARITH + ("abs", "ceil", "floor", "round")
 
 
 def classify_sig(name, value, args, msg):
@@ -418,29 +540,96 @@ def classify_sig(name, value, args, msg):
             return "split-join-space-separator-collapses-whitespace"
         if value == sep:
             return "split-join-string-equal-to-separator"
+    if name in MATH and any(isinstance(x, bool) for x in [value] + list(args)):
+        # raises next to a float; comes back as true/false from at_least/at_most
+        return "math-filter-boolean-operand-raises" if msg == "raises" else "math-filter-boolean-operand-result"
+    if name in MATH and msg == "raises":
+        return f"math-filter-raises:{name}"
+    if name == "divided_by" and not both_int(value, args[0]):
+        return "divided_by-decimal-operands-binary-float-quotient"
+    if name == "modulo" and not both_int(value, args[0]):
+        return "modulo-decimal-operands-sign-of-dividend"
     return f"{name}:" + repr((value, args))[:160]
+
+
+def round_digits(n):
+    """The number of places the round filter reads from its argument (None: plain round)."""
+    if n is UNDEF or n is None:
+        return None
+    if isinstance(n, (int, float)):
+        return int(n)
+    if isinstance(n, str):
+        try:
+            return int(float(n))
+        except ValueError:
+            return None
+    return None
+
+
+def power_of_two(d):
+    return d & (d - 1) == 0
+
+
+def outside_model(name, value, args):
+    """Input classes the Coq model does not cover (reason), or None."""
+    v = py_or_none(value)
+    if name == "divided_by" and not both_int(0 if v is None else v, 0 if py_or_none(args[0]) is None else py_or_none(args[0])):
+        a, b = exact(v), exact(py_or_none(args[0]))
+        if b != 0:
+            qt = a / b
+            if not short_decimal(qt) or (qt * 10 ** 20).denominator != 1:
+                return "quotient does not terminate within 15 significant digits"
+    if name in ("plus", "minus", "times", "modulo"):
+        a, b = exact(v), exact(py_or_none(args[0]))
+        if not (name == "modulo" and b == 0):
+            want = {"plus": a + b, "minus": a - b, "times": a * b}.get(name) if name != "modulo" else a - b * math.floor(a / b)
+            if not short_decimal(want):
+                return "result has more than 15 significant digits"
+    if name == "round" and args:
+        n = round_digits(args[0])
+        a = exact(v)
+        if n is not None and 0 < n < 40 and not power_of_two(a.denominator):
+            t = a * 10 ** n
+            if t.denominator != 1 and (2 * t).denominator == 1:
+                return "decimal tie that the binary float does not hold exactly"
+    return None
 
 
 def run(ck: Check) -> None:
     ck.rule = (
-        "every filter named by the property applied to typed pools (21 strings, ints incl. 10^20, numeric strings, dyadic/short "
-        "decimals, lists of ints/strings/nil/nested, lists of dicts, nil, undefined, bools) with every argument combination from small "
-        "pools (exhaustive), through templates `{{ v | f: a0, a1 | json }}`. Non-trivial = the filter returned a value that is not its "
-        "input; distinct = distinct (filter, value, arguments)."
+        "every filter named by the property applied to typed pools (36 strings incl. every ASCII whitespace character and CR/LF "
+        "combinations, ints incl. 10^20, numeric strings, short decimals incl. negative and non-dyadic ones, booleans, lists of "
+        "ints/strings/nil/nested/mixed-case/mixed-type, lists of hashes and of non-hashes, hashes, nil, undefined) with every argument "
+        "combination from small pools (exhaustive), through templates `{{ v | f: a0, a1 | json }}` (map: item by item, missing "
+        "properties observed as nil). Non-trivial = the filter returned a value that is not its input; distinct = distinct (filter, "
+        "value, arguments)."
     )
     ck.exhaustive = True
     ck.trusted_base = [
         "Coq 8.16.1 kernel + vm_compute",
         "harness: pools, template printer, JSON -> Gallina value printer, contract predicates (props/c25.py)",
-        "modelled not verified: Python str/list methods, sorted, int(), Decimal(str(float)) arithmetic and float repr on short decimals, "
-        "the json filter used to observe results",
-        "outside the model: binary float division/modulo, repr of floats/lists inside strings, non-ASCII case mapping",
+        "modelled not verified: Python str/list methods (ASCII), sorted, int(), Decimal(str(float)) arithmetic, float(Decimal) and "
+        "float repr on decimals of at most 15 significant digits, round(float, n) away from ties, the json filter used to observe results",
+        "outside the model: quotients that do not terminate (rounded by the Decimal context), decimal ties of round that the binary "
+        "float does not hold exactly, exponent notation and NaN/Infinity, repr of floats/lists inside strings, non-ASCII case mapping "
+        "and whitespace",
     ]
-    ck.assumptions = ["floats are restricted to values whose shortest repr is a short decimal; exact-half rounding is not judged"]
+    ck.assumptions = ["floats are restricted to values whose shortest repr is a short decimal; exact-half rounding is judged by the "
+                      "model (half to even, dyadic values only), not by the contract predicates"]
     ck.proof()
 
     cases, expected, meta = [], [], []
     sigs = {}
+
+    def report(name, value, args, verdict, src, data, obs):
+        sig = classify_sig(name, py_or_none(value), [py_or_none(a) for a in args], verdict)
+        sigs[sig] = sigs.get(sig, 0) + 1
+        if sigs[sig] <= 2:
+            ck.violation("impl-violation", sig, f"{src!r} data {data!r}: {verdict}" + (f" ({obs[1]})" if obs[0] == "err" else ""),
+                         {"type": "filter", "filter": name, "value": None if value is UNDEF else value,
+                          "undefined_value": value is UNDEF, "args": [None if a is UNDEF else a for a in args],
+                          "undef_args": [a is UNDEF for a in args], "kwargs": "", "got": obs, "why": verdict})
+
     for name, value, args, kwargs, oracle in gen_cases(ck):
         if name == "splitjoin":
             src1, data1, o1 = run_filter("split", value, args)
@@ -457,28 +646,25 @@ def run(ck: Check) -> None:
                                  f"{value!r} | split: {args[0]!r} | join: {args[0]!r} gives {o2} instead of the original string",
                                  {"type": "splitjoin", "value": value, "sep": args[0], "split": o1, "joined": o2})
             continue
-        lname = "default" if name == "default_af" else name
-        src, data, obs = run_filter(lname, value, args, kwargs)
+        src, data, obs = run_filter(name, value, args, kwargs)
         ck.count(f"filter.{name}")
         ck.count(f"obs.{obs[0] if obs[0] != 'err' else obs[1]}")
         ck.note_case((name, repr(value), repr(args)), nontrivial=(obs[0] == "ok" and obs[1] != py_or_none(value)))
         if oracle is not None and obs[0] == "ok":
             try:
-                verdict = oracle(py_or_none(value) if name not in ("default", "default_af") else value, args, obs[1])
-            except Exception as e:  # the contract predicate does not apply to this shape
+                verdict = oracle(py_or_none(value) if name != "default" else value, args, obs[1])
+            except Exception:  # noqa: BLE001  the contract predicate does not apply to this shape
                 verdict = True
                 ck.count("oracle.not_applicable")
             if verdict is not True:
-                sig = classify_sig(name, value, args, verdict)
-                sigs[sig] = sigs.get(sig, 0) + 1
-                if sigs[sig] <= 2:
-                    ck.violation("impl-violation", sig, f"{src!r} data {data!r}: {verdict}",
-                                 {"type": "filter", "filter": lname, "value": None if value is UNDEF else value,
-                                  "undefined_value": value is UNDEF, "args": [None if a is UNDEF else a for a in args],
-                                  "undef_args": [a is UNDEF for a in args], "kwargs": kwargs, "got": obs, "why": verdict})
-        if name in ("divided_by", "modulo") and not both_int(py_or_none(value) if value is not UNDEF else 0,
-                                                              args[0] if args[0] is not UNDEF and args[0] is not None else 0):
-            ck.count("model.outside(binary float division)")
+                report(name, value, args, verdict, src, data, obs)
+        elif obs[0] == "err" and name in MATH and not (name == "round" and len(args) > 1):
+            # anything that cannot be converted to a number is used as 0: only a zero divisor may raise
+            if not o_arith_err(name, py_or_none(value), [py_or_none(a) for a in args]):
+                report(name, value, args, "raises", src, data, obs)
+        why = outside_model(name, value, args)
+        if why is not None:
+            ck.count(f"model.outside({why})")
             continue
         try:
             gc = g_case(name, value, args)
@@ -491,7 +677,7 @@ def run(ck: Check) -> None:
         meta.append((src, data, obs, name, value, args))
     ck.sample({"template": meta[7][0], "data": meta[7][1], "result": meta[7][2]})
     ck.sample({"template": meta[len(meta) // 2][0], "data": meta[len(meta) // 2][1], "result": meta[len(meta) // 2][2]})
-    mm = ck.coq_mismatches("filters", IMPORTS, "run_fcase", "fres_eqb", "fcase", "fres", cases, expected, chunk=700)
+    mm = ck.coq_mismatches("filters", IMPORTS, "run_fcase2", "fres_eqb", "fcase2", "fres", cases, expected, chunk=1200)
     ck.traces += len(cases)
     by_filter = {}
     for i in mm:
@@ -500,11 +686,11 @@ def run(ck: Check) -> None:
     for fname, idxs in by_filter.items():
         for i in idxs[:2]:
             src, data, obs, name, value, args = meta[i]
-            model = ck.coq_eval(IMPORTS, [f"run_fcase ({g_case(name, value, args)})"])[0]
+            model = ck.coq_eval(IMPORTS, [f"run_fcase2 ({g_case(name, value, args)})"])[0]
             ck.violation("correspondence", f"c25-correspondence-{fname}",
-                         f"model Filters.run_fcase and the implementation disagree on {src!r} data {data!r}: impl {obs}, model {model}",
+                         f"model Filters2.run_fcase2 and the implementation disagree on {src!r} data {data!r}: impl {obs}, model {model}",
                          {"type": "filter-corr", "template": src, "data": {k: repr(v) for k, v in data.items()}, "impl": obs, "model": model,
-                          "broken": f"correspondence Filters.apply_filter {fname} ~ liquid filter {fname} (theorems C25_*)"},
+                          "broken": f"correspondence Filters2.apply_filter2 {fname} ~ liquid filter {fname} (theorems C25_*)"},
                          no_input=True)
 
 
@@ -520,7 +706,7 @@ def replay(data) -> int:
         args = [UNDEF if u else a for a, u in zip(case["args"], case["undef_args"])]
         src, dat, obs = run_filter(case["filter"], value, args, case.get("kwargs", ""))
         print(src, dat, "->", obs, "| contract:", case.get("why"))
-        bad = list(obs) == list(case["got"]) or obs == tuple(case["got"])
+        bad = json.loads(json.dumps(obs)) == json.loads(json.dumps(case["got"]))
     else:
         print("replay names a proof/correspondence obligation:", case)
         return 1
